@@ -429,7 +429,7 @@ impl Runner {
             format!(
                 "T{} did not hand the baton back within {} s during {}: its \
                  progress depends on another (parked) thread",
-                tid, WATCHDOG_SECS, what
+                tid, self.watchdog.as_secs(), what
             ),
         );
     }
